@@ -503,7 +503,7 @@ package web
 // next store call or was part of the batch this very call stored; the counter equals the number of queued entities, so
 // the trailing flush of the handler stores whatever is left
 //@ unit (*datasetHandler).processEntities$1
-//@   prop C01 C04
+//@   prop C01 C04 C15
 //@   ghost flushedG bool = false
 //@   ghost inFlushedG bool = false
 //@   ghost n0G int = len(entities)
